@@ -15,6 +15,11 @@ use std::sync::atomic::{AtomicU64, Ordering};
 
 const EXH_BITS: u64 = 10;
 const VAL_CAP: usize = 20_000;
+/// thorough tier: exhaustive up to 12 bits of support
+static EXH_EXTRA: AtomicU64 = AtomicU64::new(0);
+fn exh_bits() -> u64 {
+    EXH_BITS + EXH_EXTRA.load(Ordering::Relaxed)
+}
 
 pub fn meta(rep: &mut Report) {
     rep.rule = "btor2 texts built line by line: (single) every operator x operand sorts x operand choice (input x / state y of each sort, same or different) x every subset of negated bit-vector operands; (const) constants in three bases with leading zeros, extreme values, negative constd; (attach) init/next attachment incl. bit-vector init of an array state, state initialised from an earlier state, states with only init / only next / neither; (chain) two-operator chains over bv1, bv2, array 1->2; (order) all define-before-use line orders of small files; (illsorted) every sort-id token of every base file replaced by every other declared sort id. Each text goes through patronus::btor2::parse_str; every output, bad, constraint, init and next of the result is evaluated with the reference evaluator under every valuation (exhaustive up to 10 bits of support, else product of boundary alphabets) and compared with the reference btor2 interpreter run on the text; declared sorts of inputs/states are compared by position. distinct_nontrivial = distinct texts that patronus accepted and whose roots were compared under at least one valuation.".into();
@@ -124,7 +129,7 @@ fn compare(ctx: &Context, sys: &TransitionSystem, f: &RefFile, text: &str) -> Re
         }
     }
     let support = support_of(f);
-    let (vals, _exh, _red) = valuations(f, &support, EXH_BITS, VAL_CAP);
+    let (vals, _exh, _red) = valuations(f, &support, exh_bits(), VAL_CAP);
     let mut n = 0u64;
     for v in vals.iter() {
         let ev = btorref::eval_all(f, v);
@@ -615,10 +620,10 @@ pub fn attach_files() -> Vec<String> {
 }
 
 /// two-operator chains over bv1, bv2 and array 1->2
-pub fn chain_files(full: bool) -> Vec<String> {
-    let insts = instances(&[1, 2], &[], &[Sort::Arr(1, 2)], &[1]);
+pub fn chain_files(w: u32, full: bool) -> Vec<String> {
+    let insts = instances(&[1, w], &[], &[Sort::Arr(1, w)], &[1]);
     // keep result sorts inside the reduced universe
-    let universe = [Sort::Bv(1), Sort::Bv(2), Sort::Arr(1, 2)];
+    let universe = [Sort::Bv(1), Sort::Bv(w), Sort::Arr(1, w)];
     let inner: Vec<_> = insts.iter().filter(|i| universe.contains(&i.3) && !btorref::PATRONUS_UNSUPPORTED.contains(&i.0.as_str())).cloned().collect();
     let mut out = vec![];
     for inn in inner.iter() {
@@ -638,7 +643,7 @@ pub fn chain_files(full: bool) -> Vec<String> {
                 for &neg in negs {
                     let mut tb = Tb::new();
                     tb.sort(Sort::Bv(1));
-                    tb.sort(Sort::Bv(2));
+                    tb.sort(Sort::Bv(w));
                     let mut sym: BTreeMap<Sort, (u64, u64)> = BTreeMap::new();
                     for s in inn.1.iter().chain(outer.1.iter()) {
                         if !sym.contains_key(s) {
@@ -828,16 +833,15 @@ pub fn run(opts: &Opts, rep: &Report) {
     let _gag = StderrGag::new();
     let thorough = tier.is_thorough();
 
-    let (widths, cmpw, ext): (Vec<u32>, Vec<u32>, Vec<u32>) =
-        if thorough { (vec![1, 2, 3, 4, 8, 32, 33, 64, 65], vec![16, 31, 63, 127, 128, 129], vec![0, 1, 2, 5, 31, 32, 64]) } else { (vec![1, 2, 3, 8], vec![64, 65], vec![0, 1, 2, 5]) };
-    let insts = instances(&widths, &cmpw, &ARRS, &ext);
-    let mut single: Vec<String> = vec![];
-    let mut ops_seen: std::collections::BTreeSet<String> = Default::default();
-    for i in insts.iter() {
-        ops_seen.insert(i.0.clone());
-        single.extend(single_variants(i, true));
+    if thorough {
+        EXH_EXTRA.store(2, Ordering::Relaxed);
     }
-    single.sort();
+    let (widths, cmpw, ext): (Vec<u32>, Vec<u32>, Vec<u32>) =
+        if thorough { (vec![1, 2, 3, 4, 5, 8, 16, 31, 32, 33, 63, 64, 65, 128, 129], vec![127], vec![0, 1, 2, 5, 31, 32, 64]) } else { (vec![1, 2, 3, 8], vec![64, 65], vec![0, 1, 2, 5]) };
+    let insts = instances(&widths, &cmpw, &ARRS, &ext);
+    let ops_seen: std::collections::BTreeSet<String> = insts.iter().map(|i| i.0.clone()).collect();
+    let mut single: Vec<String> = insts.par_iter().flat_map(|i| single_variants(i, true)).collect();
+    single.par_sort();
     single.dedup();
     // base files whose sort ids are mutated: the un-negated variant of every instance (quick),
     // every single-operator file (thorough)
@@ -851,11 +855,8 @@ pub fn run(opts: &Opts, rep: &Report) {
     };
     let attach = attach_files();
     let consts = const_files(if thorough { &[1, 2, 3, 4, 8, 31, 32, 33, 63, 64, 65, 127, 128, 129, 130, 192] } else { &[1, 2, 3, 8, 64, 65, 128, 129] });
-    let mut ill: Vec<String> = vec![];
-    for b in ill_bases.iter().chain(attach.iter()) {
-        ill.extend(illsorted_variants(b));
-    }
-    ill.sort();
+    let mut ill: Vec<String> = ill_bases.par_iter().chain(attach.par_iter()).flat_map(|b| illsorted_variants(b)).collect();
+    ill.par_sort();
     ill.dedup();
     let mut bases = order_bases();
     if thorough {
@@ -872,7 +873,13 @@ pub fn run(opts: &Opts, rep: &Report) {
     if !complete {
         rep.cap_hit("line orders per base file capped");
     }
-    let chains = chain_files(thorough);
+    let mut chains = chain_files(2, thorough);
+    if thorough {
+        chains.extend(chain_files(3, true));
+        chains.extend(chain_files(8, false));
+        chains.par_sort();
+        chains.dedup();
+    }
 
     // ---- vacuity guards (enumerator / oracle side only)
     let all_ops: Vec<&str> = btorref::UNARY
@@ -893,12 +900,12 @@ pub fn run(opts: &Opts, rep: &Report) {
     }
     {
         // the reference must accept every base text and reject a healthy share of the sort mutants
-        let bad = single.iter().chain(attach.iter()).chain(chains.iter()).chain(orders.iter()).find(|t| btorref::parse(t).is_err());
+        let bad = single.par_iter().chain(attach.par_iter()).chain(chains.par_iter()).chain(orders.par_iter()).find_first(|t| btorref::parse(t).is_err());
         if let Some(t) = bad {
             machinery_failure(&format!("C08 generator produced a text the reference rejects: {} ({:?})", t.replace('\n', " / "), btorref::parse(t).err()));
         }
-        let n_ill = ill.iter().filter(|t| matches!(btorref::parse(t), Err(RefErr::IllSorted(_)))).count();
-        let n_ok = ill.iter().filter(|t| btorref::parse(t).is_ok()).count();
+        let n_ill = ill.par_iter().filter(|t| matches!(btorref::parse(t), Err(RefErr::IllSorted(_)))).count();
+        let n_ok = ill.par_iter().filter(|t| btorref::parse(t).is_ok()).count();
         rep.add("illsorted_variants_ref_illsorted", n_ill as u64);
         rep.add("illsorted_variants_ref_wellformed", n_ok as u64);
         if n_ill < 100 || n_ill * 2 < ill.len() {
@@ -907,7 +914,7 @@ pub fn run(opts: &Opts, rep: &Report) {
         // reference evaluation distinguishes operand order: slte vs sgte on some valuation
         let t = "1 sort bitvec 1\n2 sort bitvec 2\n3 input 2\n4 input 2\n5 slte 1 3 4\n6 sgte 1 3 4\n7 output 5\n8 output 6\n";
         let f = btorref::parse(t).unwrap();
-        let (vals, _, _) = valuations(&f, &support_of(&f), EXH_BITS, VAL_CAP);
+        let (vals, _, _) = valuations(&f, &support_of(&f), exh_bits(), VAL_CAP);
         let differ = vals.iter().any(|v| {
             let e = btorref::eval_all(&f, v);
             e.opnd(f.outputs[0].0) != e.opnd(f.outputs[1].0)
